@@ -104,10 +104,10 @@ def build(ctx):
                           replace=['computeGranularity', 'adjustChunkSizing', 'ChunkedRange_calcChunkSize', 'G_staticImpl', 'G_adaptiveWaitDispatch', 'G_dynamicImpl', 'G_dynamicNoWaitDispatch'],
                           expect=[r'postcondition\.5', r'precondition'], flags=['--unwind', '9'], no_checks=False,
                           replay=dict(prog='replay/c48_replay.cpp', args=lambda ce, u: ['skeleton', 'T=' + u.inst] + ['%s=%s' % (k, str(v).rstrip('ulUL')) for k, v in sorted(ce.items())])))
-        common = dict(defines=d, inst=t, timeout=150, signed_wrap=True, nonprop_cls=['overflow', 'conversion'])
+        common = dict(defines=d, inst=t, timeout=400, signed_wrap=True, nonprop_cls=['overflow', 'conversion'])
         units.append(Unit('adjustChunkSizing', 'intwp', 'specs/c12_sizing.c', 'adjustChunkSizing', expect=[r'postcondition\.1'],
                           replay=dict(prog='replay/c12_replay.cpp', args=lambda ce, u: ['adjust', 'T=' + u.inst] + ['%s=%s' % (k, v) for k, v in sorted(ce.items()) if v is not None]), **common))
         units.append(Unit('parallel_for_staticImpl.numThreads', 'intwp', 'specs/c48_static.c', 'psi_numthreads', expect=[r'postcondition\.2'], **common))
-    units.append(Unit('for_each_n.sizing', 'intwp', 'specs/c15_foreach.c', 'fe_sizing', expect=[r'postcondition\.4'], timeout=120,
+    units.append(Unit('for_each_n.sizing', 'intwp', 'specs/c15_foreach.c', 'fe_sizing', expect=[r'postcondition\.4'], timeout=300,
                       replay=dict(prog='replay/c15_replay.cpp', args=lambda ce, u: ['sizing'] + ['%s=%s' % (k, v) for k, v in sorted(ce.items()) if v is not None])))
     return units
